@@ -81,6 +81,69 @@ def nontrivial(case, truth, res, mask, n):
     return False
 
 
+def wrapped_colours(ctx):
+    """An `async def` adapter that carries `functools.wraps(<a sync function>)` (run-in-executor / asyncify style): what the
+    caller gets is the awaited value, and that is what every postcondition - own or inherited - is evaluated against.
+    Enumerated: plain function / DBC override x result object x postcondition holds or not."""
+    import functools
+    import inspect
+    import icontract
+    from vf.progmodel.run import drive
+
+    for where in ("function", "override"):
+        for value in (5, None, [], "x"):
+            for holds in (True, False):
+                seen = []
+
+                def post(result):
+                    seen.append(result)
+                    return holds
+
+                def sync_impl(*a):
+                    return value
+
+                if where == "function":
+                    @functools.wraps(sync_impl)
+                    async def adapter(*a):
+                        return sync_impl(*a)
+
+                    call = icontract.ensure(post)(adapter)
+                else:
+                    class Base(icontract.DBC):
+                        @icontract.ensure(post)
+                        async def m(self):
+                            return value
+
+                    def sync_m(self):
+                        return value
+
+                    @functools.wraps(sync_m)
+                    async def adapter(self):
+                        return sync_m(self)
+
+                    Sub = type(Base)("Sub", (Base,), {"m": adapter})
+                    call = Sub().m
+                try:
+                    r = drive(call())
+                    got = "returned the value" if r is value else "returned %r" % (r,)
+                except icontract.ViolationError:
+                    got = "violation"
+                except BaseException as e:  # noqa
+                    got = "%s: %s" % (type(e).__name__, e)
+                want = "returned the value" if holds else "violation"
+                ok_seen = len(seen) == 1 and seen[0] is value
+                ctx.case(["wrapped-colour", where, repr(value), holds], True, sample={"directed": "async adapter with functools.wraps(sync function): %s, result %r" % (where, value)})
+                ctx.count("directed:wrapped-colours")
+                if got != want or not ok_seen:
+                    ctx.fail("wrapped-colour|%s|%s" % (where, "holds" if holds else "violated"), {"directed": "wrapped-colours"},
+                             "async adapter wrapping a sync function (%s) returning %r: expected %s with the postcondition evaluated once "
+                             "against that value; got %s, postcondition saw %s" % (
+                                 where, value, want, got, ["coroutine" if inspect.iscoroutine(x) else repr(x) for x in seen]))
+                for x in seen:
+                    if inspect.iscoroutine(x):
+                        x.close()
+
+
 def directed(ctx, only=None):
     """Histories: a contracted function that has ALREADY been called is adopted as the overriding method of a DBC
     sub-class (`class D(B): m = f`); from then on the inherited postconditions gate its returns as well. Sync and async,
@@ -88,6 +151,7 @@ def directed(ctx, only=None):
     import icontract
     from vf.progmodel.run import drive
 
+    wrapped_colours(ctx)
     for is_async in (False, True):
         for own_post in (True, False):
             for warm in (True, False):
